@@ -12,6 +12,7 @@ import shutil
 import sys
 
 import core
+import gstate
 import sched
 import seams
 import workload
@@ -65,9 +66,14 @@ class ParsersWorld:
         self.trace_prefixes = (os.path.join(os.path.abspath(tree), "simple_ddl_parser") + os.sep,
                                os.path.dirname(os.path.abspath(ply.__file__)) + os.sep)
         self.runs_done = 0
-        # steady state: one construction + run before any simulated run (first-use effects such
-        # as the table module import must not depend on a run's position in its worker)
-        DDLParser("create table warm (a int); -- w\n").run()
+        # The worker itself never constructs a parser: every run executes in a forked child (isolate.py) that
+        # starts from a process in which the package (and the table data module) is imported but NO parser has
+        # ever existed - so the first object of a run really is the first object of its process ("first object
+        # ever built becomes the master" defects are visible), exactly like the pristine reference.
+        try:
+            import simple_ddl_parser.parsetab  # noqa: F401  (data only; builds no lexer / parser)
+        except BaseException:  # noqa
+            sys.modules.pop("simple_ddl_parser.parsetab", None)
 
     # ------------------------------------------------------------------ generation: C14
     def gen_c14(self, seed, tier="quick"):
@@ -163,7 +169,8 @@ class ParsersWorld:
         st = {"violations": [], "stats": {"ops": 0, "refs": 0, "cancel_stmt_fired": 0, "cancel_line_fired": 0,
                                            "dump_fault_fired": 0, "reruns": 0, "mode_changes": 0,
                                            "after_fault_checks": 0, "stmts": 0, "cancel_in_multi": 0,
-                                           "objects": 0, "exc_outcomes": 0, "refs_other_hashseed": 0},
+                                           "objects": 0, "exc_outcomes": 0, "refs_other_hashseed": 0,
+                                           "global_state_changed": 0, "victims_run": 0},
               "kinds": []}
         chooser = sched.ListChooser([])
         S = sched.Scheduler(chooser, labels=(), trace_prefixes=self.trace_prefixes if need_trace else None,
@@ -198,10 +205,12 @@ class ParsersWorld:
             seams.HOOKS.io = None
             os.chdir(self.workroot)
             shutil.rmtree(cwd, ignore_errors=True)
-        return self._result(trace, log, st, extra={"line_points": S.line_points})
+        return self._result(st.get("trace_override") or trace, log, st, extra={"line_points": S.line_points})
 
     def _c14_body(self, trace, log, st, ctx, task, S, cwd):
         obj, cur = None, None
+        gs = gstate.snapshot()
+        swept = set()
         held = []          # [op index, returned object, digest at return time]
         faulted_before = False
         prev_kw = None
@@ -355,6 +364,48 @@ class ParsersWorld:
                 faulted_before = True
             if st["violations"]:
                 break
+            # probe (not an oracle): did this op change process-global library state?  If so, look for a victim now.
+            gs2 = gstate.snapshot()
+            ch = gstate.changed(gs, gs2)
+            gs = gs2
+            if ch and not set(ch) <= swept and len(swept) < 40:
+                swept.update(ch)
+                stats["global_state_changed"] += 1
+                log.add("global_state_changed", i=i, keys=ch[:8])
+                if self._victim_sweep(i, ch, trace, st, log):
+                    break
+
+    def _victim_sweep(self, i, ch, trace, st, log):
+        """Op i changed process-global library state: run a seeded sample of corpus scripts on fresh objects in this
+        same process and compare each with the pristine reference.  A mismatch is an ordinary refinement violation;
+        the reported trace is made explicit (ops up to i + the victim's new/run) so replay needs no sweep."""
+        stats = st["stats"]
+        rv = core.stream(int(trace.get("seed") or 0), "victims:%d" % i)
+        c = core.corpus()
+        idxs = [n for n in range(len(c)) if len(c[n]["ddl"]) <= 6000]
+        for idx in rv.sample(idxs, min(len(idxs), 40 if trace.get("swarm", {}).get("marathon") else 24)):
+            it = c[idx]
+            stats["victims_run"] += 1
+            try:
+                r = self.DDLParser(it["ddl"], **it["flags"]).run(**it["run"])
+                outcome = ["ok", core.canon(r)]
+            except Exception as e:  # noqa
+                outcome = core.outcome_of_exception(e)
+            expected = self.ref(it["ddl"], it["flags"], it["run"])
+            if outcome != expected:
+                ops = [dict(o) for o in trace["ops"][:i + 1]]
+                for o in ops:
+                    o.pop("cancel", None)
+                ops += [{"op": "new", "ddl": it["ddl"], "flags": dict(it["flags"]), "src": "corpus:%d" % idx},
+                        {"op": "run", "kw": dict(it["run"])}]
+                st["trace_override"] = dict(trace, ops=ops)
+                st["violations"].append({"oracle": "refinement", "op_index": len(ops) - 1, "op": "run", "found_by": "victim sweep",
+                                         "polluted_by_op": i, "changed_global_state": ch[:6],
+                                         "expected": core.short(expected, 600), "observed": core.short(outcome, 600),
+                                         "diff": core.first_diff(expected, outcome)})
+                log.add("victim", i=i, victim=idx, outcome=outcome)
+                return True
+        return False
 
     # ------------------------------------------------------------------ generation: C15
     def gen_c15(self, seed, tier="quick", gran=None):
@@ -364,7 +415,12 @@ class ParsersWorld:
         else:
             rs.random()
         k = rs.choice([2, 2, 3, 3, 4])
-        swarm = {"gran": gran, "k": k, "p_corpus": rs.choice([0.3, 0.6, 0.9]),
+        marathon = gran == "O" and rs.random() < (0.12 if tier == "quick" else 0.25)
+        if marathon:
+            # many objects, atomic ops in a seeded order, one process image: order-dependent pollution of
+            # process-wide tables by one script that changes how a much later, unrelated script parses
+            k = rs.choice([8, 12, 20])
+        swarm = {"gran": gran, "k": k, "p_corpus": rs.choice([0.3, 0.6, 0.9]) if not marathon else 0.85, "marathon": marathon,
                  "p_line": rs.choice([0.0005, 0.002, 0.01]) if gran == "L" else 0.0,
                  "focus": rs.choice(FOCUS) if gran == "L" else None,
                  "p_focus": rs.choice([0.03, 0.1, 0.3]) if gran == "L" else 0.0,
@@ -557,6 +613,7 @@ class ParsersWorld:
                     "digest": log.digest(), "ops_digest": log.ops_digest(), "stats": st["stats"]}
         # oracle: every run() == what that object returns as the only parser in a pristine process
         by_tid = dict((spec.get("tid", n), spec) for n, spec in enumerate(trace["tasks"]))
+        cancelled_objs = set((i, oi) for (i, oi, j, out) in outcomes if out[0] == "cancelled")
         for (i, oi, j, out) in outcomes:
             spec = ([by_tid[i]] + list(by_tid[i].get("then") or []))[oi]
             st["stats"]["runs"] += 1
@@ -572,7 +629,14 @@ class ParsersWorld:
                     st["violations"].append({"oracle": "isolation", "task": i, "obj": oi, "run": j,
                                              "expected": core.short(expected, 600), "observed": core.short(out, 600)})
                 continue
-            expected = self.ref(spec["ddl"], spec["flags"], spec["runs"][j])
+            if (i, oi) in cancelled_objs:
+                # what an object returns after one of its own runs was interrupted is C14's business; the cancel arm
+                # only asks that the OTHER objects are undisturbed
+                continue
+            # the reference is this object's OWN call history (all its runs up to j) as the only parser of a pristine
+            # process - so a defect of repeated use of one object (C14) is not reported as interference
+            hist = self.ref.history(spec["ddl"], spec["flags"], spec["runs"][:j + 1])
+            expected = hist[j] if (hist and hist[0] != "ctor-exc") else hist
             st["stats"]["refs"] += 1
             if out != expected:
                 st["violations"].append({"oracle": "isolation", "task": i, "obj": oi, "run": j,
